@@ -45,7 +45,7 @@ class Runner:
         self.stats = {"archives": 0, "cuts": 0, "substitutions": 0, "multi_damage": 0, "crashes": 0,
                       "by_class": {}, "impl_outcomes": {}, "model_ub_predictions": 0, "isolations": 0}
         self.diffs = 0
-        self.max_sigs = 6
+        self.max_sigs = 5
         self.deadline = None
 
     # ---- low level ----------------------------------------------------------------------
@@ -69,7 +69,7 @@ class Runner:
             if i < len(probes):
                 res.append("CRASH " + crash)
                 i += 1
-            if deaths > 40:
+            if deaths > 8:
                 res += ["SKIPPED"] * (len(probes) - i)
                 break
         return res
@@ -151,6 +151,11 @@ class Runner:
             if len(self.sigs) >= self.max_sigs:
                 return
             a = impl[i] if i < len(impl) else "SKIPPED"
+            if a == "SKIPPED":
+                continue
+            if a.startswith("CRASH in-head"):
+                self.record("violation", "crash:" + a[6:], "the reader crashed on the intact archive", info, items, pr)
+                continue
             t = pr.split(" ")
             if t[0] == "tall":
                 mo = archgen.expand_rle(model[i])
